@@ -85,6 +85,13 @@ def _args(rng):
   w = None
   if rng.rand() < .5:
     w = [rng.uniform(.1, 2, size=len(v)), np.ones(len(v)), rng.exponential(size=len(v)) + 1e-6][int(rng.randint(3))]
+    if len(v) >= 3 and rng.rand() < .3:
+      # masked examples: weight exactly 0 on some values (never on all) - such a value still belongs to the data range,
+      # exactly like the clip bounds the function itself appends with weight 0
+      z = rng.rand(len(v)) < .4
+      if z.all():
+        z[int(rng.randint(len(v)))] = False
+      w = np.where(z, 0.0, w)
   red = str(rng.choice(["mean", "sum"]))
   return vk, v, k, mode, cmin, cmax, dv, w, red
 
